@@ -62,7 +62,8 @@ class World:
         self.B = type(f"B_{n}", (self.A,), {})
         self.oa = self.A()
         self.ob = self.B()
-        self.oa.x = 1                 # Semantics.tla: oa.x = 1, ob.x = "a", ob.y = oa
+        self.oa.x = 1                 # Semantics.tla: oa.x = 1, oa.y = "a", ob.x = "a", ob.y = oa
+        self.oa.y = "a"
         self.ob.x = "a"
         self.ob.y = self.oa
 
@@ -196,6 +197,8 @@ class World:
             return self.UIter(items)
         if c == "gen":
             return (i for i in items)
+        if c == "USizedIter":
+            return _SizedIter(items)
         raise KeyError(c)
 
     def project_order(self, o, real):
@@ -338,6 +341,26 @@ def _p_sized1(x):
 
 
 _PREDS = {"truthy": _p_truthy, "isstr": _p_isstr, "sized1": _p_sized1}
+
+
+class _SizedIter:
+    """one-shot iterator that also defines __len__ (e.g. a batch loader): Sized, not a Collection"""
+
+    def __init__(self, items):
+        self._it = list(items)
+        self.pos = 0
+
+    def __iter__(self):
+        return self
+
+    def __next__(self):
+        if self.pos >= len(self._it):
+            raise StopIteration
+        self.pos += 1
+        return self._it[self.pos - 1]
+
+    def __len__(self):
+        return len(self._it) - self.pos
 
 
 def _never():
